@@ -103,7 +103,13 @@ class Interp(ExprMixin):
 
     def new_loop(self, kind, iterable, node):
         self._loop_counter += 1
-        return ("loop", self._loop_counter, kind, self.ref_term(iterable))
+        # iterating over a list element by element is not an aggregate read of it (no 'prefix-read' event)
+        self._quiet_reads = getattr(self, "_quiet_reads", 0) + 1
+        try:
+            it_term = self.ref_term(iterable)
+        finally:
+            self._quiet_reads -= 1
+        return ("loop", self._loop_counter, kind, it_term)
 
     # ------------------------------------------------------------------
     # statements
